@@ -6,7 +6,7 @@ import sqlite3
 import hypothesis
 from hypothesis import HealthCheck, Phase, given, settings, strategies as st
 
-from pv import bgen, faults, gen, machine, oracles
+from pv import bgen, corpus, faults, gen, machine, oracles
 from pv.dump import dump
 from pv.props import c17
 from pv.props import common as C
@@ -174,78 +174,10 @@ PROFILE = machine.Profile('c18', 'C18', ops=[(1, o) for o in WRITE_OPS],
                           defect_rate=0)
 
 
-def move_subtree(draw, d):
-    """PUT provider that gives a provider WITH descendants another parent
-    (or none): the re-parent write unit of the property."""
-    inner = sorted(u for u in d.providers if d.children(u))
-    if not inner:
-        return machine.build(draw, d, PROFILE, 'update_rp')
-    u = draw(st.sampled_from(inner))
-    p = d.providers[u]
-    desc = gen.descendants(d, u) | {u}
-    targets = [x for x in sorted(d.providers)
-               if x not in desc and x != p['parent']]
-    if p['parent'] is not None:
-        targets.append(None)
-    if not targets:
-        return machine.build(draw, d, PROFILE, 'update_rp')
-    new = draw(st.sampled_from(targets))
-    v = (1, 39) if p['parent'] is not None else draw(
-        st.sampled_from([(1, 14), (1, 36), (1, 39)]))
-    return gen.R('PUT', '/resource_providers/' + u, v,
-                 {'name': p['name'], 'parent_provider_uuid': new},
-                 'update_rp', ['move-subtree-%d' % min(len(desc), 3)],
-                 target=u)
-
-
-def post_allocations_existing(draw, d):
-    """POST /allocations rewriting >= 2 existing consumers with changed
-    project / user / type (a multi-consumer write unit touching consumer
-    attributes as well as allocations)."""
-    held = sorted(d.consumers)
-    if len(held) < 2:
-        return machine.build(draw, d, PROFILE, 'post_allocations')
-    cs = draw(st.lists(st.sampled_from(held), min_size=2, max_size=3,
-                       unique=True))
-    req = gen.post_allocations(draw, d, (1, draw(st.sampled_from(
-        [38, 39, 28, 13]))), consumers=cs)
-    for c, e in req['b'].items():
-        cur = d.consumers[c]
-        e['project_id'] = [x for x in gen.PROJECTS + ['proj-c']
-                           if x != cur['project']][0]
-        e['user_id'] = [x for x in gen.USERS + ['user-c']
-                        if x != cur['user']][0]
-        if 'consumer_type' in e:
-            e['consumer_type'] = 'MIGRATION' \
-                if cur['type'] != 'MIGRATION' else 'INSTANCE'
-    req['labels'].append('changes-consumer-attributes')
-    return req
-
-
-def delete_allocations_held(draw, d):
-    """DELETE /allocations/{c} for a consumer that holds allocations,
-    preferably on several providers (one write unit: all rows + the consumer
-    record)."""
-    spread = {}
-    for (c, rp, _rc) in d.allocations:
-        spread.setdefault(c, set()).add(rp)
-    if not spread:
-        return machine.build(draw, d, PROFILE, 'delete_allocations')
-    wide = sorted(c for c, s_ in spread.items() if len(s_) >= 2)
-    c = draw(st.sampled_from(wide or sorted(spread)))
-    return gen.R('DELETE', '/allocations/' + c, (1, draw(st.sampled_from(
-        [39, 28, 12, 0]))), None, 'delete_allocations',
-        ['held-on-%d-providers' % min(len(spread[c]), 3)], consumers=[c])
-
-
 def build_request(draw, d):
     name = draw(st.sampled_from(WRITE_OPS))
-    if name == 'delete_allocations_held':
-        return delete_allocations_held(draw, d)
-    if name == 'move_subtree':
-        return move_subtree(draw, d)
-    if name == 'post_allocations_existing':
-        return post_allocations_existing(draw, d)
+    if name in corpus.EXTRA:
+        return corpus.EXTRA[name](draw, d, PROFILE)
     if name in ('put_allocations_existing', 'put_rp_aggregates'):
         return c17.build_request(draw, d)
     return machine.build(draw, d, PROFILE, name)
